@@ -52,6 +52,7 @@ From Coq Require Import ZArith List Bool Reals Lra Permutation Sorted.
 From BZ Require Import Base.Ops Gen.Utils Gen.Point Gen.BBox Gen.Line Gen.Quad Gen.Cubic Hand.Bounds Hand.Split Proofs.C02 Proofs.C03 Proofs.C03band.
 From BZ Require Gen.Sample Gen.Split Proofs.Bridge3.
 Import ListNotations.
+From BZ Require Proofs.Transfer3.
 Open Scope R_scope.
 
 Theorem C03_quad_findExtremes_exact :
@@ -176,6 +177,30 @@ Proof. exact @Bridge3.splitAtPoints_gen. Qed.
 Theorem C03_addExtremes_is_generated :
   forall (T : Type) (O : Ops T) (fuel : nat) (segs r : list (segment T)), addExtremes O segs = Ok r -> (length (extremes_splitlist O segs) < fuel)%nat -> Gen.Split.Path_addExtremes O fuel segs = Some r.
 Proof. exact @Bridge3.addExtremes_gen. Qed.
+Theorem C03_gen_addExtremes_same_trace :
+  forall (fuel : nat) (segs : list (segment R)), (Transfer3.C03T.extremes_count segs < fuel)%nat -> exists (out : list (segment R)) (groups : list (list (segment R))), Split.Path_addExtremes ROps fuel segs = Some out /\ out = concat groups /\ Forall2 refines_seg segs groups.
+Proof. exact @Transfer3.C03T.gen_addExtremes_same_trace. Qed.
+Theorem C03_gen_addExtremes_keeps_nodes :
+  forall (fuel : nat) (segs out : list (segment R)), (Transfer3.C03T.extremes_count segs < fuel)%nat -> Split.Path_addExtremes ROps fuel segs = Some out -> forall s : segment R, In s segs -> (exists p : segment R, In p out /\ seg_start p = seg_start s) /\ (exists p : segment R, In p out /\ seg_end p = seg_end s).
+Proof. exact @Transfer3.C03T.gen_addExtremes_keeps_nodes. Qed.
+Theorem C03_gen_addExtremes_wf :
+  forall (fuel : nat) (segs out : list (segment R)), (Transfer3.C03T.extremes_count segs < fuel)%nat -> Split.Path_addExtremes ROps fuel segs = Some out -> chained segs -> match segs with | [] => out = [] | s0 :: rest => exists (p : segment R) (ps : list (segment R)), out = p :: ps /\ chained out /\ seg_start p = seg_start s0 /\ seg_end (last_seg p ps) = seg_end (last_seg s0 rest) end.
+Proof. exact @Transfer3.C03T.gen_addExtremes_wf. Qed.
+Theorem C03_gen_addExtremes_monotone_total :
+  forall (fuel : nat) (segs : list (segment R)), (Transfer3.C03T.extremes_count segs < fuel)%nat -> NoDup segs -> exists (out : list (segment R)) (groups : list (list (segment R))), Split.Path_addExtremes ROps fuel segs = Some out /\ out = concat groups /\ Forall2 (fun (s : segment R) (g : list (segment R)) => refines_seg s g /\ (forall p : segment R, In p g -> piece_mono s p)) segs groups.
+Proof. exact @Transfer3.C03T.gen_addExtremes_monotone_total. Qed.
+Theorem C03_gen_addExtremes_monotone_pieces_total :
+  forall (fuel : nat) (segs out : list (segment R)), (Transfer3.C03T.extremes_count segs < fuel)%nat -> NoDup segs -> Split.Path_addExtremes ROps fuel segs = Some out -> forall p : segment R, In p out -> exists s : segment R, In s segs /\ piece_mono s p.
+Proof. exact @Transfer3.C03T.gen_addExtremes_monotone_pieces_total. Qed.
+Theorem C03_gen_addExtremes_duplicate_refuted :
+  exists (segs out : list (segment R)) (p : segment R), chained segs /\ (forall fuel : nat, (Transfer3.C03T.extremes_count segs < fuel)%nat -> Split.Path_addExtremes ROps fuel segs = Some out) /\ In p out /\ (forall s : segment R, In s segs -> same_kind s p -> ~ piece_mono s p).
+Proof. exact @Transfer3.C03T.gen_addExtremes_duplicate_refuted. Qed.
+Theorem C03_gen_splitAtPoints_retraces :
+  forall (fuel : nat) (segs : list (segment R)) (sl : list (segment R * R)), (length sl < fuel)%nat -> Forall (fun p : segment R * R => snd p < 1) sl -> exists (out : list (segment R)) (groups : list (list (segment R))), Split.Path_splitAtPoints ROps fuel segs sl = Some out /\ out = concat groups /\ Forall2 retraces_seg segs groups.
+Proof. exact @Transfer3.C03T.gen_splitAtPoints_retraces. Qed.
+Theorem C03_gen_splitAtPoints_duplicate_unsplit :
+  forall (fuel : nat) (l1 : list (segment R)) (s : segment R) (l2 l3 : list (segment R)) (sl : list (segment R * R)), (length sl < fuel)%nat -> Forall (fun p : segment R * R => snd p < 1) sl -> exists out : list (segment R), Split.Path_splitAtPoints ROps fuel (l1 ++ s :: l2 ++ s :: l3) sl = Some out /\ In s out.
+Proof. exact @Transfer3.C03T.gen_splitAtPoints_duplicate_unsplit. Qed.
 
 Print Assumptions C03_quad_findExtremes_exact.
 Print Assumptions C03_cubic_findExtremes_exact.
@@ -217,3 +242,11 @@ Print Assumptions C03_band_arch_pieces_monotone.
 Print Assumptions C03_band_arch_path.
 Print Assumptions C03_splitAtPoints_is_generated.
 Print Assumptions C03_addExtremes_is_generated.
+Print Assumptions C03_gen_addExtremes_same_trace.
+Print Assumptions C03_gen_addExtremes_keeps_nodes.
+Print Assumptions C03_gen_addExtremes_wf.
+Print Assumptions C03_gen_addExtremes_monotone_total.
+Print Assumptions C03_gen_addExtremes_monotone_pieces_total.
+Print Assumptions C03_gen_addExtremes_duplicate_refuted.
+Print Assumptions C03_gen_splitAtPoints_retraces.
+Print Assumptions C03_gen_splitAtPoints_duplicate_unsplit.
